@@ -148,7 +148,7 @@ Section Callers.
   Lemma sensor_no_crash T d ck b : ck <> CkPanic -> fst (sensor_get_value parse T d ck b) <> CvCrash.
   Proof.
     intros H. unfold sensor_get_value. cbn [fst].
-    destruct (safe_cmd_classify T d ck b H) as [E|[e E]]; rewrite E; [destruct (parse _)|]; discriminate.
+    destruct (safe_cmd_classify T d ck b H) as [E|[e E]]; rewrite E; [destruct (parse _) as [f|]; [destruct (is_finite f)|]|]; discriminate.
   Qed.
 
   Lemma fan_get_no_crash T d ck b : ck <> CkPanic -> fst (fan_get_int parse T d ck b) <> CvCrash.
